@@ -41,6 +41,7 @@ const (
 	c38ProbeCmd   = 0xF7 // an unassigned command byte: the server must answer "command 247 not supported now"
 	c38ShortWait  = 2 * time.Second  // after this the client stops waiting for an answer and half-closes (never decides a verdict)
 	c38Watchdog   = 30 * time.Second // generous: answer-or-close; firing twice (second time alone) is a hang
+	c38BigWait    = 150 * time.Second // for commands of 16 MiB: allocation and copying of that size is slow in this sandbox
 	c38KnownWait  = 1500 * time.Millisecond // only for inputs that match an already established hang signature
 	c38KnownTries = 2                // how often an established hang is re-observed before matching inputs are skipped
 	c38Slack      = 12
@@ -244,6 +245,7 @@ type c38Driver struct {
 	established map[string]int
 	onHang      func()
 	skipped     int64
+	filler      []byte
 }
 
 // ---------------------------------------------------------------- hang signatures
@@ -380,7 +382,7 @@ func (d *c38Driver) logFrame(cs *c38Case, fi int) {
 		p = p[:96]
 	}
 	line, _ := json.Marshal(map[string]interface{}{"group": cs.Group, "idx": cs.Idx, "frame": fi, "class": f.Class, "setup": cs.Setup, "user": cs.User,
-		"seq": f.Seq, "hdr_len": f.HdrLen, "payload_len": len(f.Payload), "payload_head_hex": hex.EncodeToString(p), "hs": f.HS})
+		"seq": f.Seq, "hdr_len": f.HdrLen, "payload_len": len(f.Payload), "big": f.Big, "cont": len(f.Cont), "complete": f.Complete, "payload_head_hex": hex.EncodeToString(p), "hs": f.HS})
 	d.pre.Write(string(line))
 }
 
@@ -436,6 +438,35 @@ func (d *c38Driver) open(cs *c38Case) (net.Conn, error) {
 	return nc, nil
 }
 
+// writeCmd writes a command frame, its filler (Big) and its continuation frames (Cont).
+func (d *c38Driver) writeCmd(nc net.Conn, f *c38Frame) error {
+	if f.Big == 0 && len(f.Cont) == 0 {
+		return c38WriteFrame(nc, f.Seq, f.HdrLen, f.Payload)
+	}
+	n := len(f.Payload) + f.Big
+	if f.HdrLen >= 0 {
+		n = f.HdrLen
+	}
+	nc.SetWriteDeadline(time.Now().Add(c38BigWait))
+	if _, err := nc.Write(append([]byte{byte(n), byte(n >> 8), byte(n >> 16), byte(f.Seq)}, f.Payload...)); err != nil {
+		return err
+	}
+	if f.Big > 0 {
+		if len(d.filler) < f.Big {
+			d.filler = bytes.Repeat([]byte{'a'}, f.Big) // one buffer for the whole run (fresh pages are expensive here)
+		}
+		if _, err := nc.Write(d.filler[:f.Big]); err != nil {
+			return err
+		}
+	}
+	for i, c := range f.Cont {
+		if err := c38WriteFrame(nc, f.Seq+1+i, -1, c); err != nil {
+			return err
+		}
+	}
+	return nil
+}
+
 func (d *c38Driver) noteHang(est string) {
 	if est != "" {
 		d.established[est]++
@@ -486,12 +517,44 @@ func (d *c38Driver) run(cs *c38Case, only int) []c38Outcome {
 		d.logFrame(cs, fi)
 		d.inputs++
 		o := c38Outcome{Frame: fi, Class: f.Class}
-		if err := c38WriteFrame(nc, f.Seq, f.HdrLen, f.Payload); err != nil {
+		if err := d.writeCmd(nc, &f); err != nil {
 			o.Result = "closed"
 			outs = append(outs, o)
 			nc.Close()
 			nc = nil
 			continue
+		}
+		preFirst := ""
+		if f.Complete && !f.NoReply {
+			// every announced byte of this command has been sent and the protocol demands an answer:
+			// wait for it as a client would, WITHOUT sending anything else and without half-closing
+			// (a server that still waits for more input now is not waiting for anything announced)
+			cw := d.wait
+			if f.Big > 0 {
+				cw = c38BigWait
+			}
+			p, k := c38ReadFrame(nc, cw)
+			if k == "closed" {
+				o.Result = "closed"
+				outs = append(outs, o)
+				nc.Close()
+				nc = nil
+				continue
+			}
+			if k == "timeout" {
+				o.Result, o.Hang = "hang", true
+				if c38Drain(nc, c38ShortWait) == "hang" {
+					d.noteHang("") // and the session does not even end when the client leaves
+				}
+				outs = append(outs, o)
+				nc.Close()
+				nc = nil
+				continue
+			}
+			preFirst = c38FirstKind(p)
+			if preFirst == "data" {
+				preFirst = "" // a result set: let the generic reader below consume the rest
+			}
 		}
 		if f.Half {
 			if c38Drain(nc, dwait) == "hang" {
@@ -517,7 +580,7 @@ func (d *c38Driver) run(cs *c38Case, only int) []c38Outcome {
 			nc = nil
 			continue
 		}
-		first := ""
+		first := preFirst
 		wait := c38ShortWait
 		if d.wait < wait {
 			wait = d.wait
@@ -1125,7 +1188,7 @@ func c38Judge(rec *kit.Rec, d *c38Driver, k *c38Checker, batch []c38Case, outs [
 			}
 			d.established[sig]++
 			w.Detail = "no answer and no close within the watchdog, twice (second time alone)"
-			rec.Violation(sig, fmt.Sprintf("frame of class %s (setup %q) got neither an answer nor a close within %v, also when re-run alone; the session stays stuck after the client has gone", o.Class, batch[bi].Setup, d.wait), w)
+			rec.Violation(sig, fmt.Sprintf("frame of class %s (setup %q) got neither an answer nor a close within the watchdog (%v; %v for 16 MiB commands), also when re-run alone", o.Class, batch[bi].Setup, d.wait, c38BigWait), w)
 		}
 	}
 	if len(bad) == 0 {
